@@ -28,7 +28,8 @@ CONSTANTS NP, NC, NG,       \* maximal table sizes; a random data set has 0..N r
           NQ,               \* number of random queries (InitRandom / InitHier)
           Roots,            \* subset of {"P", "C"}
           GridSel,          \* "forms" | "mods" | "all": which part of the systematic grid InitGrid enumerates
-          GridKeep,         \* percentage of the grid's queries that is kept (seeded random thinning; 100 = all)
+          GridKeep,         \* percentage of the modifier grid's (part 2: the grid's) queries that is kept (seeded random thinning; 100 = all)
+          GridKeepF,        \* percentage of the form grid's queries that is kept
           NH,               \* hierarchy: maximal number of rows
           Mixed             \* hierarchy: also mappings that mix single-table and joined-table inheritance
 VARIABLES k, ds, q, out
@@ -204,9 +205,9 @@ GridMods == [root : Roots, pf : {"none", "anyc"}, pv : {1}, jn : {"none", "inner
 GridQF == IF GridSel \in {"forms", "all"} THEN {Norm(r) : r \in GridForms} ELSE {}
 GridQM == (IF GridSel \in {"mods", "all"} THEN {Norm(r) : r \in GridMods} ELSE {}) \ GridQF
 Finish == /\ out = Case /\ PrintT(ToJson(out))
-\* (GridKeep thins the modifier grid only; K = 0 / NQ = 0 switch a part off)
+\* (GridKeepF / GridKeep thin the two grids; K = 0 / NQ = 0 switch a part off)
 InitGrid == /\ k \in 1..K
-            /\ \/ q \in GridQF
+            /\ \/ q \in GridQF /\ (GridKeepF >= 100 \/ RandomElement(1..100) <= GridKeepF)
                \/ q \in GridQM /\ (GridKeep >= 100 \/ RandomElement(1..100) <= GridKeep)
             /\ RandomDs /\ Finish
 InitRandom == /\ k \in 1..NQ /\ q = RandomQ(k) /\ RandomDs /\ Finish
@@ -360,7 +361,7 @@ HEval(qq) == Slice(HSorted(qq), qq.lim, qq.off)
 HObj(i) == [id |-> i, cls |-> ds.rows[i].cls, hid |-> ds.rows[i].hid,
             vals |-> [j \in 1..5 |-> IF HAll[j] \in HAnc(ds.c2par, ds.rows[i].cls) THEN ds.rows[i].v[j] ELSE -1]]
 HCase == [ds |-> ds, q |-> q, rows |-> HEval(q), count |-> Len(HEval(q)), objs |-> [i \in 1..ds.n |-> HObj(i)],
-          hitems |-> [h \in 1..ds.nh |-> Asc({i \in HIds : ds.rows[i].hid = h})]]
+          hitems |-> [h \in 1..ds.nh |-> Dsc({i \in HIds : ds.rows[i].hid = h})]]           \* H.items is ordered by A.id DESCENDING
 TabChoices(h) == IF Mixed THEN SUBSET (h.cls \ {"A"}) ELSE {{}, h.cls \ {"A"}}
 RandomHDs == \E h \in {RandomElement(HShapes)} : \E nn \in {Pick(Sizes(NH))} : \E nh \in {RandomElement(0..2)} :
              \E raw \in {RandomElement([1..nn -> HRowSpace(h, nh)])} :
